@@ -51,7 +51,14 @@ namespace occa {
         }
       }
       if (encoding & encodingType::R) {
-        out << 'R';
+        // A raw string keeps its characters as they are: no escaping,
+        //   and the delimiter must not close the literal early
+        std::string delimiter;
+        while (value.find(")" + delimiter + "\"") != std::string::npos) {
+          delimiter += '_';
+        }
+        out << "R\"" << delimiter << '(' << value << ')' << delimiter << '"' << udf;
+        return;
       }
       out << '"' << escape(value, '"') << '"' << udf;
     }
